@@ -315,6 +315,32 @@ func runC12(c *Ctx) {
 			}
 		})
 	}
+	// the value it starts with: a run that panics (or leaves before the evaluation) never reaches the
+	// stores above, and the deferred in-place step then reads the initial value — it must be false
+	initKey := "cmd.init/completedSuccessfully initial value"
+	initBad := ""
+	var inits []*ssa.Function
+	if sp := c.P.SSAPkg[cmdPath]; sp != nil {
+		if f := sp.Func("init"); f != nil {
+			inits = append(inits, f)
+		}
+	}
+	for _, fn := range inits {
+		eachInstr(fn, func(ins ssa.Instruction) {
+			if st, ok := ins.(*ssa.Store); ok {
+				if g, ok := st.Addr.(*ssa.Global); ok && g.Name() == "completedSuccessfully" {
+					if k, isK := st.Val.(*ssa.Const); !isK || k.Value == nil || k.Value.String() != "false" {
+						initBad = c.P.pos(st.Pos())
+					}
+				}
+			}
+		})
+	}
+	if initBad == "" {
+		r.Discharge("W2", initKey, "-", "starts as false (zero value, or an explicit false)")
+	} else {
+		r.Finding("W2", initKey, initBad, "completedSuccessfully does not start as false: when the evaluation panics or is never reached, the deferred in-place step commits the partial temporary file over the target")
+	}
 	// any other store to completedSuccessfully in the module
 	for _, fn := range c.moduleFuncs() {
 		if fn.Name() == "evaluateSequence" || fn.Name() == "evaluateAll" || fn.Name() == "init" {
